@@ -41,7 +41,6 @@ struct LimitOracle {
         pkg_txs.clear();
         if (g.package.empty()) pkg_txs[g.tx->GetHash()] = g.tx;
         for (const auto& t : g.package) pkg_txs[t->GetHash()] = t;
-        for (size_t i = 0; i < ms.Events().size(); ++i) {} // (events are only read after the call)
     }
 
     std::optional<CTxOut> CoinOf(const COutPoint& op, const PoolSnap& after, const PoolSnap& before)
@@ -57,12 +56,14 @@ struct LimitOracle {
         return std::nullopt;
     }
 
-    void After(const char* what, const PoolSnap& before)
+    /** usage_now / minfee_now are read immediately after the submission returned, before any other pool query (graph queries may allocate lazily) */
+    void After(const char* what, const PoolSnap& before, size_t usage_now, CAmount minfee_now)
     {
         const PoolSnap after = ms.Snapshot();
         st.steps++;
         // ---- usage
-        VCHECK(int64_t(after.usage) <= lim.max_bytes, "c27.usage", what, "DynamicMemoryUsage", after.usage, "exceeds the configured maximum", lim.max_bytes, "pool", after.entries.size());
+        VCHECK(int64_t(usage_now) <= lim.max_bytes, "c27.usage", what, "DynamicMemoryUsage", usage_now, "exceeds the configured maximum", lim.max_bytes, "pool", after.entries.size());
+        if (int64_t(usage_now) * 10 >= lim.max_bytes * 9) st.cls("usage>=90%");
         // ---- clusters (own union-find)
         const ModelPool m = ModelPool::From(after.Txs());
         auto adj_weight = [&](const Txid& t) {
@@ -107,8 +108,8 @@ struct LimitOracle {
             st.cls("eviction-for-space");
             if (known && vsize > 0) {
                 // GetMinFee (sat/kvB) must be strictly above fee/vsize
-                VCHECK(__int128(after.min_fee_per_kvb) * vsize > fee * 1000, "c27.minfee", what, "after evicting", evicted.size(), "txs with aggregate fee", int64_t(fee), "vsize", vsize,
-                       "GetMinFee is only", after.min_fee_per_kvb, "sat/kvB");
+                VCHECK(__int128(minfee_now) * vsize > fee * 1000, "c27.minfee", what, "after evicting", evicted.size(), "txs with aggregate fee", int64_t(fee), "vsize", vsize,
+                       "GetMinFee is only", minfee_now, "sat/kvB");
             }
         }
         // ---- TRUC topology (only in histories without block disconnections)
@@ -215,14 +216,18 @@ VERIF_TARGET(c27_limits, nullptr, 160, 2200,
         const PoolSnap before = ms.Snapshot();
         oracle.Before(g);
         MempoolAcceptResult r = ms.Submit(g.tx);
-        oracle.After("tx", before);
+        const size_t usage_now = ms.pool().DynamicMemoryUsage();
+        const CAmount minfee_now = ms.pool().GetMinFee().GetFeePerK();
+        oracle.After("tx", before, usage_now, minfee_now);
         return r;
     };
     hooks.submit_pkg = [&](const GenTx& g) {
         const PoolSnap before = ms.Snapshot();
         oracle.Before(g);
         PackageMempoolAcceptResult r = ms.SubmitPackage(g.package);
-        oracle.After("package", before);
+        const size_t usage_now = ms.pool().DynamicMemoryUsage();
+        const CAmount minfee_now = ms.pool().GetMinFee().GetFeePerK();
+        oracle.After("package", before, usage_now, minfee_now);
         return r;
     };
     MempoolHistory h(ms, s, st, hooks);
@@ -248,7 +253,7 @@ VERIF_TARGET(c27_limits, nullptr, 160, 2200,
             if (!h.Step()) break;
         } else if (kind == 6 || kind == 7) {
             // filler burst: padded transactions on distinct confirmed coins at random feerates
-            const unsigned n = s.range<unsigned>(4, 24);
+            const unsigned n = s.range<unsigned>(8, 44);
             const size_t pad = size_cfg == 0 ? s.pick<size_t>({4000, 3000, 4500}) : size_cfg == 1 ? s.pick<size_t>({20000, 12000, 24000}) : s.pick<size_t>({4000, 20000, 60000});
             unsigned ok = 0;
             for (unsigned i = 0; i < n; ++i) {
@@ -257,7 +262,7 @@ VERIF_TARGET(c27_limits, nullptr, 160, 2200,
                 for (const auto& x : sp) {
                     if (x.unconfirmed || x.spent_by || x.coin.coinbase || x.coin.value < 1'000'000) continue;
                     plan.inputs = {x};
-                    if (s.chance(200)) break; // mostly the first free coin
+                    break;
                 }
                 if (plan.inputs.empty()) break;
                 CScript data;
